@@ -18,6 +18,6 @@ func runVamana(rc *runCtx, prefix, run string) error {
 	if rc.thorough() {
 		nfiles = 32
 	}
-	return runHistories(rc, "c03", n, []int{0, 3, 1, 0, 2, 4}, nfiles,
+	return runHistories(rc, "c03", n, []int{0, 3, 1, 0, 2, 4, 3}, nfiles, // 7 entries: the large histories (every sixth) meet every configuration
 		[]string{"Bytes", "Pack", "Value", "Obs", run}, "hist", prefix)
 }
